@@ -422,12 +422,23 @@ class Run:
             bysig = {}
             for sig, d in new_v:
                 bysig.setdefault(sig, []).append(d)
+            # one VIOLATION line per failure family (closed-set signatures are grouped by
+            # construct / file), at most 5 lines; every signature is in the first replay file
+            fam = {}
             for sig, ds in sorted(bysig.items()):
+                m = re.match(r"^((?:corpus|slot):[^@#]+)", sig)
+                fam.setdefault(m.group(1) + ":" + sig.split(":")[-1] if m else sig, []).append((sig, ds))
+            for k, (f, members) in enumerate(sorted(fam.items())):
+                if k >= 5:
+                    break
+                sig, ds = members[0]
                 d = min(ds, key=lambda x: len(json.dumps(x)))
                 path = self.write_replay("input", {"signature": sig, "case": d, "cases_with_this_signature": len(ds),
+                                                   "family": f, "signatures_in_family": [m[0] for m in members][:50],
+                                                   "all_new_signatures": sorted(bysig.keys())[:200] if k == 0 else None,
                                                    "ring1_failing": r1["failing"], "ring2_disagreements": dis[:5]})
                 lines_out.append("VIOLATION property=%s replay=%s" % (pid, path))
-                violations += 1
+            violations += len(bysig)
         elif ring1_broken or ring2_broken or build_fail:
             payload = {"no_failing_input_found": True,
                        "ring1_failing": r1["failing"], "ring2_disagreements": dis[:20], "runner_errors": errs,
